@@ -43,7 +43,12 @@ func Partitions(n int) *PartitionIterator {
 	for i := range b {
 		b[i] = 1
 	}
-	return &PartitionIterator{n: n, m: 1, a: a, b: b}
+	m := 1
+	if n == 1 {
+		//m is one more than the largest value among a[0], ..., a[n-2] and there are no such values.
+		m = 0
+	}
+	return &PartitionIterator{n: n, m: m, a: a, b: b}
 }
 
 //Next tries to advance pi to the next partition, returning true if there is one and false if there isn't.
